@@ -2,6 +2,8 @@
 import os
 import time
 
+import multiprocessing as mpc
+
 import numpy as np
 
 import cases as C
@@ -16,8 +18,27 @@ def c13_cases(tier, seed):
     out = []
     for fam in C.SINGLE_DRAW:
         cs = [c for c in C.family_cases(fam, 'f32', tier, seed) if 'law' in c['tags']]
-        out += cs if th else cs[:5]
+        if th:
+            out += cs
+        else:
+            # 9 per family, spread over the grid (fixed switch points first, then every k-th of the rest)
+            pick = cs[:5] + cs[5::max(1, (len(cs) - 5) // 4)][:4]
+            out += C.dedup(pick)
     return out
+
+
+def analyse(args):
+    """exact Kolmogorov distance of one dump (runs in a worker process)"""
+    fam, pv, path = args
+    y32 = np.fromfile(path, dtype='<f4')
+    os.remove(path)
+    y = y32.astype(np.float64)
+    y = y[np.isfinite(y)]
+    law = R.get(fam, pv)
+    d, at, ndist = kolmogorov_exact(y, law)
+    u = np.unique(y)
+    xf = float(np.max(np.abs(u * law.pdf(u))))
+    return d, at, ndist, xf, len(y32)
 
 
 def kolmogorov_exact(y, law):
@@ -60,15 +81,15 @@ def run(tier, seed):
                 os.makedirs(j['outdir'], exist_ok=True)
             events, meta = V.run_shards(None, 'sweepdump', jobs, wd, 'sd_%s_%d' % (math_cfg, w0), wall_timeout=1800)
             byid = {c['id']: c for c in wave}
-            for e in events:
-                if e.get('ev') == 'hang':
-                    raise V.Broken('sweepdump hang: %r' % e)
-                if e.get('ev') != 'dump':
-                    continue
+            dumps = [e for e in events if e.get('ev') == 'dump']
+            if any(e.get('ev') == 'hang' for e in events):
+                raise V.Broken('sweepdump hang')
+            todo = [e for e in dumps if e['multiword_calls'] <= 16]
+            with mpc.Pool(min(V.NCPU, max(1, len(todo)))) as pool:
+                analysed = dict(zip([e['case']['id'] for e in todo], pool.map(analyse, [(byid[e['case']['id']]['fam'], byid[e['case']['id']]['pv'], e['file']) for e in todo])))
+            for e in dumps:
                 c = byid[e['case']['id']]
-                y32 = np.fromfile(e['file'], dtype='<f4')
-                os.remove(e['file'])
-                outputs_examined += len(y32)
+                outputs_examined += e['n']
                 rec = {'case': c['id'], 'math': math_cfg, 'multiword_calls': e['multiword_calls']}
                 if e['panics'] or e['nonfinite'] or e['outside']:
                     ver.add({'fam': c['fam'], 'kind': (e['first_bad'] or {}).get('kind', 'bad'), 'math': math_cfg},
@@ -80,14 +101,11 @@ def run(tier, seed):
                         n_na += 1
                         rec['verdict'] = 'not applicable (more than one word per sample)'
                         results.append(rec)
+                        if os.path.exists(e['file']):
+                            os.remove(e['file'])
                         continue
-                y = y32.astype(np.float64)
-                y = y[np.isfinite(y)]
-                law = R.get(c['fam'], c['pv'])
-                d, at, ndist = kolmogorov_exact(y, law)
-                # sup |x f(x)| over the reachable outputs (dense: 2^24 points)
-                u = np.unique(y)
-                xf = float(np.max(np.abs(u * law.pdf(u))))
+                # exact distance; sup |x f(x)| over the reachable outputs (dense: 2^24 points)
+                d, at, ndist, xf, _ = analysed[c['id']]
                 bound = 2.0 ** -24 * (1.5 + 8.0 * xf)
                 rec.update({'kolmogorov_distance': d, 'bound': bound, 'ratio': d / bound, 'at': at, 'distinct_outputs': ndist, 'sup_abs_x_f': xf})
                 results.append(rec)
@@ -109,6 +127,6 @@ def run(tier, seed):
     V.write_evidence('C13', tier, seed, cov, time.time() - t0, len(ver.violations),
                      assumptions=['closed-form CDFs evaluated in float64 with log1p/expm1 tail forms', 'sup|x f(x)| is taken over the 2^24 reachable outputs',
                                   'the (at most 16) first words that lead to a redraw are pushed through with the redraw and counted'])
-    if len(judged) < 6 * (2 if not th else 4):
+    if len(judged) < 6 * (6 if not th else 8):
         return 2
     return rc
